@@ -33,13 +33,18 @@ def product_files(level):
     return spec, files
 
 
+produced = {}
+
+
 def produce(prod, spec, files, producer, rpc_w, tag):
     """create caches; -> list of (location, image name)"""
     names = synth.file_names(spec)["img"]
     made = []
     root = prod.mapper_root()
     if producer in ("option", "both"):
-        prod.open(create_cache=True, use_cache=False, records_per_chunk=rpc_w)
+        # the tree returned by the producing call is itself a "no cache present: parsed normally" tree
+        t = prod.open(create_cache=True, use_cache=True, records_per_chunk=rpc_w)
+        produced["tree"] = treesnap.snapshot(t)
         made += [("local", n) for n in names]
     if producer in ("cli-adjacent", "cli-target", "both"):
         if prod.kind in ("local", "file"):
@@ -121,6 +126,7 @@ def execute(case):
     is_index = lambda p: p.endswith(".index")  # noqa: E731
     with harness.Product(files, kind) as prod:
         try:
+            produced.clear()
             made = produce(prod, spec, files, producer, rpc_w, case.get("tag", "x"))
         except Exception as e:
             bad("cache-production-fails", f"{type(e).__name__}: {str(e)[:120]}", exc=type(e).__name__)
@@ -134,6 +140,11 @@ def execute(case):
         if t or info_idx:
             bad("use_cache_false-consults-index", f"use_cache=False touched {(t + info_idx)[:2]}")
         ref = treesnap.snapshot(ref_tree)
+        if "tree" in produced:
+            ref_w = ref if rpc_w == rpc_r else treesnap.snapshot(prod.open(use_cache=False, records_per_chunk=rpc_w))
+            d = treesnap.diff(ref_w, produced["tree"])
+            if d:
+                bad("producing-open-tree-differs", f"the tree returned by the create_cache=True open differs from a plain uncached open: {treesnap.short(d, 2)}")
         ref_pattern = load_pattern(ref_tree, spec, kind) if kind == "mcfs" else None
         # cached open
         with cachelab.recording() as ev:
